@@ -248,7 +248,10 @@ type Machine struct {
 	fault         *faultSpec
 	faultHit      bool
 	shortReads    bool
+	shortTaken    bool
 	readLens      []int
+	tapePos       int
+	rewound       bool
 	outputs       []OutEvent
 	trackWrites   bool
 	sharedWrites  []string
@@ -368,7 +371,9 @@ func (m *Machine) resetPath(prefix []int) {
 	m.fault = nil
 	m.faultHit = false
 	m.shortReads = false
+	m.shortTaken = false
 	m.readLens = nil
+	m.tapePos, m.rewound = 0, false
 	m.outputs = nil
 	m.trackWrites = false
 	m.sharedWrites = nil
